@@ -116,6 +116,9 @@ pub fn variants(src: &str, rng: &mut Rng) -> Vec<(String, &'static str)> {
   v.push((mb, "multi-byte-prefix"));
   // a very long first line
   v.push((format!("/* {} */ {}", "x".repeat(3000), src), "long-line"));
+  // long runs of multi-byte characters on the line of a match: hundreds of continuation bytes before a column
+  let wide = match rng.below(3) { 0 => "é".repeat(300), 1 => "日本語".repeat(60), _ => format!("{}{}", "😀".repeat(90), "ö".repeat(40)) };
+  v.push((format!("/* {wide} */ {}", src), "long-wide-line"));
   v
 }
 
@@ -257,7 +260,7 @@ pub fn run(o: &Opts) {
       }
     }
   }
-  out.finish("files in 5 variants (as is, CRLF, no trailing newline, multi-byte text in front of code, a 3000-character first line) searched with patterns cut from them, random context flags (-A/-B/-C 1..3), \
+  out.finish("files in 6 variants (as is, CRLF, no trailing newline, multi-byte text in front of code, a 3000-character first line, a first line with hundreds of multi-byte characters) searched with patterns cut from them, random context flags (-A/-B/-C 1..3), \
               the three JSON styles, optional -r: every record's text, byteOffset, line/character column of both ends, lines, charCount, every meta-variable and label and replacementOffsets are recomputed from the file bytes; \
               the output must parse as JSON (array, or one object per line); every path:line:text entry of the plain report must carry that line of the file. non-trivial = at least one record");
 }
